@@ -18,6 +18,7 @@ import numpy as np
 from mc import env  # noqa: F401
 from mc.chains import Chain, sectors
 from mc.machine import dense_of
+from mc import machine as M
 from mc.ref.dense import close, rel_err
 
 ID = "C05"
@@ -53,6 +54,9 @@ def cases(tier, seed):
             for sec in sectors(fam, n):
                 for direction in ("L", "R"):
                     yield {"k": "chain", "fam": fam, "n": n, "kind": "random", "sector": sec, "dir": direction}
+    for hist in CONFIG_HISTORIES:
+        for derive in ("copy()", "conj()", "scale(1)"):
+            yield {"k": "config-history", "history": hist, "derive": derive}
     from mc.space import plane_trees
     for nn in ((2, 3, 4) if quick else (2, 3, 4, 5)):
         for it, parent in enumerate(plane_trees(nn)):
@@ -274,7 +278,81 @@ def run_chain(desc, seed):
             "sample": {"desc": desc, "schmidt_ranks": [int(np.sum(s > 1e-12 * norm)) for s in spectra], "compressions": ncomp}}
 
 
+CONFIG_HISTORIES = ["sibling-fixed-first", "sibling-limit-raised", "sibling-threshold-lowered", "sibling-threshold-raised", "sibling-criterion-changed"]
+
+
+def run_config_history(desc, seed):
+    """a state and a copy of it (copy(), conj(), an operator applied) own SEPARATE truncation settings: what is written into the settings
+    of the sibling -- by attribute assignment, or by the lazily filled per-bond table of a first compression -- must not change how the
+    state itself is truncated.  Checked with the same bounds as everywhere: own limit obeyed, distance within the discarded weights."""
+    import copy as _copy
+    from renormalizer.utils import CompressConfig, CompressCriteria
+    ch = Chain("spin", 6, seed)
+    s0 = ch.random_mps([0], 8, "c05cfg", cplx=(desc["derive"] == "conj()"))
+    s0.ensure_left_canonical()
+    psi = M.dense_of(s0)
+    norm = np.linalg.norm(psi)
+    dims = ch.dims
+    spectra = []
+    for cut in range(1, len(dims)):
+        Mx = psi.reshape(int(np.prod(dims[:cut])), -1)
+        spectra.append(np.linalg.svd(Mx, compute_uv=False))
+    viol = {}
+
+    def add(sig, msg):
+        if sig not in viol:
+            viol[sig] = {"sig": sig, "msg": msg}
+    hist = desc["history"]
+    own_fixed = hist in ("sibling-fixed-first", "sibling-limit-raised", "sibling-criterion-changed")
+    s = _copy.deepcopy(s0)
+    s.compress_config = CompressConfig(CompressCriteria.fixed, max_bonddim=3) if own_fixed else \
+        CompressConfig(CompressCriteria.threshold, threshold=(0.3 if hist == "sibling-threshold-lowered" else 1e-9))
+    before = (s.compress_config.criteria, s.compress_config.threshold, s.compress_config.bond_dim_max_value)
+    derive = {"copy()": lambda z: z.copy(), "conj()": lambda z: z.conj(), "scale(1)": lambda z: z.scale(1.0)}[desc["derive"]]
+    t = derive(s)
+    tag = f"[{hist}, sibling = state.{desc['derive']}]"
+    try:
+        if hist == "sibling-fixed-first":
+            t.compress_config.bond_dim_max_value = 1
+            t.compress_config.max_dims = None
+            t.compress()                                   # fills the sibling's per-bond table with 1
+        elif hist == "sibling-limit-raised":
+            t.compress_config.bond_dim_max_value = 7
+        elif hist == "sibling-threshold-lowered":
+            t.compress_config.threshold = 1e-9
+        elif hist == "sibling-threshold-raised":
+            t.compress_config.threshold = 0.5
+        else:
+            t.compress_config.criteria = CompressCriteria.threshold
+            t.compress_config.threshold = 0.5
+    except Exception as e:
+        return {"rejected": 1, "outcome": f"sibling-setup-refused:{type(e).__name__}"}
+    now = (s.compress_config.criteria, s.compress_config.threshold, s.compress_config.bond_dim_max_value)
+    if now != before:
+        add("C05:config-history:settings-of-the-state-changed", f"{tag}: (criteria, threshold, limit) of the state went from {before} to {now} by writing into the sibling's settings")
+    s.compress()
+    phi = M.dense_of(s)
+    bd = list(s.bond_dims)[1:-1]
+    # reference: the same state with the same own settings and NO sibling at all
+    r = _copy.deepcopy(s0)
+    r.compress_config = CompressConfig(CompressCriteria.fixed, max_bonddim=3) if own_fixed else \
+        CompressConfig(CompressCriteria.threshold, threshold=(0.3 if hist == "sibling-threshold-lowered" else 1e-9))
+    r.compress()
+    bd_ref = list(r.bond_dims)[1:-1]
+    if bd != bd_ref or not close(phi, M.dense_of(r), 1e-10):
+        add("C05:config-history:result-depends-on-sibling", f"{tag}: bond dims {bd} (distance to the original {np.linalg.norm(psi - phi):.4e}); without a sibling the same settings give {bd_ref} ({np.linalg.norm(psi - M.dense_of(r)):.4e})")
+    if own_fixed:
+        if any(b_ > 3 for b_ in bd):
+            add("C05:config-history:limit-exceeded", f"{tag}: own limit 3, bond dims {bd}")
+        up = np.sqrt(sum(np.sum(sp[3:] ** 2) for sp in spectra))
+        if np.linalg.norm(psi - phi) > up + 1e-9 * norm:
+            add("C05:config-history:over-truncated", f"{tag}: own limit 3, bond dims {bd}: distance {np.linalg.norm(psi - phi):.4e} > {up:.4e}")
+    return {"nontrivial": True, "counters": {"compressions": 2}, "outcome": f"config-history:{'viol' if viol else 'ok'}", "viol": list(viol.values()), "sample": {"desc": desc, "bond_dims": bd}}
+
+
 def run_case(desc, seed):
+    if desc["k"] == "config-history":
+        return run_config_history(desc, seed)
     if desc["k"] == "chain":
         return run_chain(desc, seed)
     from mc import trees
